@@ -58,12 +58,16 @@ Record cfg := mkCfg {
   g_unreg_chan : bool;       (* lookupLoop: channel.Exiting() -> UNREGISTER, else REGISTER *)
   g_precreate_first : bool;  (* GetTopic: lookupd channels are created before t.Start() *)
   g_skip_eph : bool;         (* GetTopic: #ephemeral channels are not pre-created *)
-  g_partial_query : bool     (* GetLookupdTopicChannels: the answering lookupds' channels are used even if others fail *)
+  g_partial_query : bool;    (* GetLookupdTopicChannels: the answering lookupds' channels are used even if others fail *)
+  g_ask_any_state : bool;    (* lookupdHTTPAddrs: a peer with a known address is asked WHATEVER the state of its TCP connection *)
+  g_ask_peers : bool         (* the shape [asked] relies on: the address is the cached peer info, the list read is the one the
+                                loop publishes after every (re)configuration, GetTopic queries exactly lookupdHTTPAddrs() *)
 }.
 
 #[export] Instance eta_cfg : Settable _ :=
   settable! mkCfg <g_neg; g_limit; g_max; g_close; g_reg_topics; g_reg_chans; g_skip_exiting; g_bare_no_live;
-                   g_unreg_topic; g_unreg_chan; g_precreate_first; g_skip_eph; g_partial_query>.
+                   g_unreg_topic; g_unreg_chan; g_precreate_first; g_skip_eph; g_partial_query;
+                   g_ask_any_state; g_ask_peers>.
 
 Definition repo_cfg : cfg :=
   mkCfg nsqd_rrb_refuses_negative nsqd_rrb_refuses_over_limit nsqd_opt_MaxBodySize
@@ -79,13 +83,15 @@ Definition repo_cfg : cfg :=
         nsqd_loop_topic_exiting_unregisters nsqd_loop_channel_exiting_unregisters
         nsqd_gettopic_precreates_before_start nsqd_gettopic_skips_ephemeral
         (clusterinfo_topicchannels_fails_only_when_all_fail && clusterinfo_topicchannels_returns_partial_result
-         && nsqd_gettopic_uses_partial_result).
+         && nsqd_gettopic_uses_partial_result)
+        nsqd_httpaddrs_skips_only_unknown_address
+        (nsqd_httpaddrs_built_from_peer_info && nsqd_loop_publishes_peer_list && nsqd_gettopic_queries_httpaddrs).
 
 Definition good_cfg (c : cfg) : Prop :=
   g_neg c = true /\ g_close c = true /\ g_reg_topics c = true /\ g_reg_chans c = true /\
   g_skip_exiting c = true /\ g_bare_no_live c = true /\ g_partial_query c = true /\
   g_unreg_topic c = true /\ g_unreg_chan c = true /\ g_precreate_first c = true /\
-  g_skip_eph c = true /\ (16 <= g_max c)%Z.
+  g_skip_eph c = true /\ g_ask_any_state c = true /\ g_ask_peers c = true /\ (16 <= g_max c)%Z.
 
 Definition st_disconnected : Z := nsqd_stateDisconnected.
 Definition st_connected : Z := nsqd_stateConnected.
@@ -396,16 +402,21 @@ Definition get_channel (p : nat) (c : N) (x : dstate) : dstate :=
 Definition mem (i : nat) (l : list nat) : bool := existsb (Nat.eqb i) l.
 
 (* what GetLookupdTopicChannels returns: the union over the peers whose HTTP address is
-   known and whose nsqlookupd answers; [query_fails]: some asked nsqlookupd did not answer *)
-Definition asked (k : link) : bool := k_conf k && k_info k.
+   known and whose nsqlookupd answers; [query_fails]: some asked nsqlookupd did not answer.
+   lookupdHTTPAddrs looks at lp.Info only: a peer whose TCP connection is down (dropped,
+   refused, timed out, closed after a bad reply) is asked all the same — its HTTP interface
+   is another socket.  [g_ask_any_state] = false is the variant that leaves out the peers
+   that are not in stateConnected. *)
+Definition asked (c : cfg) (k : link) : bool :=
+  k_conf k && k_info k && (g_ask_any_state c || (k_state k =? st_connected)%Z).
 Definition answers (k : link) : bool := l_up k && l_http k.
-Definition query_union (ls : list link) (t : N) : list N :=
+Definition query_union (c : cfg) (ls : list link) (t : N) : list N :=
   flat_map (fun k =>
-    if asked k && answers k
+    if asked c k && answers k
     then map snd (filter (fun tc => N.eqb (fst tc) t) (l_known k)) else []) ls.
-Definition query_fails (ls : list link) : bool := existsb (fun k => asked k && negb (answers k)) ls.
+Definition query_fails (c : cfg) (ls : list link) : bool := existsb (fun k => asked c k && negb (answers k)) ls.
 Definition query (c : cfg) (ls : list link) (t : N) : list N :=
-  if g_partial_query c || negb (query_fails ls) then query_union ls t else [].
+  if g_partial_query c || negb (query_fails c ls) then query_union c ls t else [].
 
 Definition topic_advance (c : cfg) (ls : list link) (t : N) (x : dstate) : dstate :=
   match find_topic (x_objs x) t with
